@@ -460,17 +460,22 @@ func (fr *frame) ptrLoc(p *Val, at ssa.Instruction, st *State, check bool) *Loc 
 func (fr *frame) load(p *Val, ty types.Type, st *State, at ssa.Instruction, check bool) *Val {
 	l := fr.ptrLoc(p, at, st, check)
 	v := fr.loadLoc(l, st, at)
-	if v.T != nil {
-		if at != nil {
-			if val, ok := at.(ssa.Value); ok {
+	if v.T != nil && at != nil {
+		if val, ok := at.(ssa.Value); ok {
+			switch v.T.Op {
+			case "mkslice", "mkstr", "mkiface":
+			default:
 				v.T = fr.vc.define(fr.sym(val), v.T)
 			}
 		}
-		// values read from memory are well formed
-		fr.assumeWF(v, st)
-	} else {
-		fr.assumeWF(v, st)
 	}
+	// values read from memory are well formed; what is read from a location
+	// that has not been written since function entry was already alive at entry
+	wfSt := st
+	if l.Key != "" && st.heap.get(l.Key) == fr.entry.get(l.Key) {
+		wfSt = &State{reach: st.reach, heap: fr.entry}
+	}
+	fr.assumeWF(v, wfSt)
 	return v
 }
 
